@@ -15,6 +15,7 @@ import (
 	"crypto/sha256"
 	"fmt"
 	"go/ast"
+	"go/parser"
 	"go/printer"
 	"go/token"
 	"strconv"
@@ -95,6 +96,20 @@ func c15Load(path string) (*c15File, error) {
 	if err != nil {
 		return nil, err
 	}
+	return c15FromAST(fset, f), nil
+}
+
+// a file given as text (self-tests)
+func c15LoadSrc(src string) (*c15File, error) {
+	fset := token.NewFileSet()
+	f, err := parser.ParseFile(fset, "snippet.go", src, parser.ParseComments)
+	if err != nil {
+		return nil, err
+	}
+	return c15FromAST(fset, f), nil
+}
+
+func c15FromAST(fset *token.FileSet, f *ast.File) *c15File {
 	cf := &c15File{fset: fset, f: f, structs: map[string]*ast.StructType{}, funcs: map[string]*ast.FuncDecl{},
 		values: map[string]ast.Expr{}, iota: map[string]int{}, zeroVar: map[string]bool{}}
 	for _, d := range f.Decls {
@@ -137,7 +152,7 @@ func c15Load(path string) (*c15File, error) {
 			cf.funcs[key] = d
 		}
 	}
-	return cf, nil
+	return cf
 }
 
 func c15TypeName(e ast.Expr) string {
